@@ -439,7 +439,15 @@ fn gen_modes(rng: &mut Rng) -> String {
 fn gen_alt(rng: &mut Rng) -> String {
     let hl = *rng.pick(&['h', 'l']);
     let m = *rng.pick(&[47usize, 1047, 1049, 1049]);
-    if rng.chance(10) {
+    if rng.chance(12) {
+        // the screen switch combined with a cursor save / restore mode, in either order
+        let x = *rng.pick(&[1048usize, 1048, 1049, 47, 6, 7]);
+        if rng.chance(50) {
+            format!("{}?{};{}{}", csi(rng), m, x, hl)
+        } else {
+            format!("{}?{};{}{}", csi(rng), x, m, hl)
+        }
+    } else if rng.chance(10) {
         format!("{}?{};{}{}", csi(rng), m, rng.pick(&DEC_MODES), hl)
     } else {
         format!("{}?{}{}", csi(rng), m, hl)
@@ -579,6 +587,21 @@ fn gen_overflow(rng: &mut Rng, cols: usize, rows: usize) -> String {
         'e', 'f', 'g', 'h', 'l', 'm', 'r', 'S', 'T', 'L', 'M', 'r', 'W',
     ]);
     let edge = rows.max(cols).min(9);
+    if rng.chance(20) {
+        // the same overflow in the parameter section of a DCS string (shares `param` with CSI),
+        // followed by a payload that must stay invisible and the string terminator
+        let k = *rng.pick(&[15usize, 30, 31, 32, 33, 34, 40, 64]);
+        let ps: String = (0..k).map(|i| if i % 3 == 0 { format!("{};", i % 10) } else { ";".to_string() }).collect();
+        return format!(
+            "{}{}{}{}{}{}",
+            *rng.pick(&["\u{1b}P", "\u{90}"]),
+            ps,
+            *rng.pick(&["", "1", "$"]),
+            *rng.pick(&["q", "p", "|", "m", "H"]),
+            *rng.pick(&["visible?", "ab\u{1b}[2Jcd", "x"]),
+            *rng.pick(&["\u{1b}\\", "\u{9c}"])
+        );
+    }
     let mut s = String::from(csi(rng));
     if f == 'h' || f == 'l' {
         if rng.chance(60) {
@@ -586,11 +609,42 @@ fn gen_overflow(rng: &mut Rng, cols: usize, rows: usize) -> String {
         }
         s.push_str(*rng.pick(&["6", "7", "4", "25", "47", "1049", "20"]));
     } else {
-        s.push_str(&rng.range(1, edge.max(1)).to_string());
-        if rng.chance(50) {
+        // a first parameter that means something to the command
+        let p1: String = match f {
+            'g' => rng.pick(&["", "0", "3"]).to_string(),
+            'W' => rng.pick(&["", "0", "2", "5"]).to_string(),
+            'J' | 'K' => rng.pick(&["", "0", "1", "2"]).to_string(),
+            'm' => rng.pick(&["1", "4", "7", "31", "0"]).to_string(),
+            _ => {
+                if rng.chance(12) {
+                    String::new()
+                } else {
+                    rng.range(1, edge.max(1)).to_string()
+                }
+            }
+        };
+        s.push_str(&p1);
+        if rng.chance(40) && !"gWJK".contains(f) {
             s.push(';');
             s.push_str(&rng.range(1, edge.max(1)).to_string());
         }
+    }
+    if rng.chance(35) {
+        // surplus SUB-parameters instead: the value the command reads is the first part, the parts
+        // beyond the sixth must not leak into it
+        let j = *rng.pick(&[4usize, 5, 6, 7, 8, 12]);
+        for i in 0..j {
+            s.push(':');
+            if rng.chance(40) {
+                s.push_str(&(i % 10).to_string());
+            }
+        }
+        s.push_str(&rng.range(0, 9).to_string());
+        if rng.chance(30) {
+            s.push_str(";1");
+        }
+        s.push(f);
+        return s;
     }
     let k = *rng.pick(&[13usize, 14, 15, 16, 17, 28, 29, 30, 31, 32, 33, 34, 35, 47, 63, 64, 65]);
     for i in 0..k {
@@ -645,6 +699,30 @@ fn gen_rep(rng: &mut Rng, cols: usize) -> String {
     }
 }
 
+/// a sequence left open with the parser's registers at their limits: parameter list at / past its 32
+/// slots, a parameter at / past its 6 sub-parts, numbers at the u16 ceiling, an open string - what
+/// comes next (an ESC, CAN, a final byte, RIS) has to cope with those registers
+fn gen_dangling(rng: &mut Rng) -> String {
+    let intro = *rng.pick(&["\u{1b}[", "\u{9b}", "\u{1b}[", "\u{1b}P", "\u{90}"]);
+    match rng.below(7) {
+        0 => {
+            let k = *rng.pick(&[30usize, 31, 32, 33, 40, 64]);
+            let ps: String = (0..k).map(|i| if i % 4 == 0 { format!("{};", i % 10) } else { ";".to_string() }).collect();
+            format!("{}{}{}", intro, ps, *rng.pick(&["", "5", "65535"]))
+        }
+        1 => {
+            let j = *rng.pick(&[4usize, 5, 6, 7, 9, 12]);
+            let ps: String = (0..j).map(|i| if i % 2 == 0 { format!("{}:", i + 1) } else { ":".to_string() }).collect();
+            format!("{}{}{}{}", intro, *rng.pick(&["", "38", "1;"]), ps, *rng.pick(&["", "7", "30"]))
+        }
+        2 => format!("{}{}", intro, *rng.pick(&["65535", "65536", "99999999999", "?65535;65535", "1;2;3"])),
+        3 => format!("{}{}{}", intro, *rng.pick(&["", "1", "?1;2"]), *rng.pick(&[" ", "$", "!", "#"])),
+        4 => format!("{}{}", *rng.pick(&["\u{1b}]", "\u{9d}", "\u{1b}X", "\u{1b}^", "\u{1b}_"]), *rng.pick(&["0;title", "", "a\u{1b}"])),
+        5 => format!("\u{1b}{}", *rng.pick(&["", "(", "#", " ", "%"])),
+        _ => format!("{}1;2{}data", *rng.pick(&["\u{1b}P", "\u{90}"]), *rng.pick(&["q", "|", "p"])),
+    }
+}
+
 pub fn gen_fragment(rng: &mut Rng, w: &W, cols: usize, rows: usize) -> String {
     let ws = [
         w.text, w.c0, w.c1, w.rel, w.abs, w.tabs, w.scroll, w.margins, w.edit, w.sgr, w.modes, w.alt, w.save,
@@ -667,6 +745,7 @@ pub fn gen_fragment(rng: &mut Rng, w: &W, cols: usize, rows: usize) -> String {
         13 => gen_charset(rng),
         14 => gen_string(rng),
         15 => gen_unimpl(rng),
+        16 if rng.chance(30) => gen_dangling(rng),
         16 => {
             // truncated prefix of some other fragment
             let mut w2 = w.clone();
@@ -739,7 +818,15 @@ fn gen_feed_x(rng: &mut Rng, w: &W, cols: usize, rows: usize) -> String {
 /// margin / saved-context / screen-switch state machine is explored much more densely than by the
 /// general grammar (ordered combinations such as DECOM, DECSC, DECSTBM, DECRC become likely)
 fn gen_soup_fragment(rng: &mut Rng, cols: usize, rows: usize) -> String {
-    match rng.below(18) {
+    match rng.below(20) {
+        18 => format!("\u{1b}[{}b", *rng.pick(&["", "1", "2", "3", "9"])),
+        19 => {
+            // several private modes in one DECSET / DECRST (order matters: screen switch vs save)
+            let ms = [6usize, 7, 25, 47, 1047, 1048, 1049];
+            let n = rng.range(2, 3);
+            let ps: Vec<String> = (0..n).map(|_| rng.pick(&ms).to_string()).collect();
+            format!("\u{1b}[?{}{}", ps.join(";"), *rng.pick(&['h', 'l']))
+        }
         16 => format!("\u{1b}[{}{}", *rng.pick(&["", "1", "2", "3"]), *rng.pick(&['L', 'M', 'S', 'T'])),
         17 => {
             if rng.chance(15) {
@@ -797,6 +884,170 @@ fn gen_fill(rng: &mut Rng, cols: usize, rows: usize) -> String {
     s
 }
 
+/// an alternate-screen episode: switch, a few of {resize, margins, save, move, modes, text}, switch
+/// back - the state carried across the two switches (margins, saved contexts, the other buffer's
+/// size, a pending wrap) is what single random switches rarely exercise
+fn alt_episode(rng: &mut Rng, cols: &mut usize, rows: &mut usize, second: bool, out: &mut impl Write) {
+    let on = *rng.pick(&[47usize, 1047, 1049]);
+    let off = *rng.pick(&[47usize, 1047, 1049]);
+    writeln!(out, "S 0 {}", hex_encode(&format!("\u{1b}[?{}h", on))).unwrap();
+    if second && rng.chance(60) {
+        writeln!(out, "S 0 {}", hex_encode(*rng.pick(&["\u{1b}8", "\u{1b}[u", "\u{1b}[?1048l"]))).unwrap();
+        if rng.chance(50) {
+            let m = match rng.below(6) {
+                0 => "\u{1b}[A".to_string(),
+                1 => "\u{1b}[B".to_string(),
+                2 => "\u{1b}[D".to_string(),
+                3 => "\u{1b}[C".to_string(),
+                4 => "x".to_string(),
+                _ => "\u{1b}[K".to_string(),
+            };
+            writeln!(out, "S 0 {}", hex_encode(&m)).unwrap();
+        }
+    }
+    for _ in 0..rng.range(1, 4) {
+        match rng.below(8) {
+            0 | 1 => {
+                match rng.below(3) {
+                    0 => *cols = rng.range(1, 8),
+                    1 => *rows = rng.range(1, 6),
+                    _ => {
+                        *cols = rng.range(1, 8);
+                        *rows = rng.range(1, 6);
+                    }
+                }
+                writeln!(out, "R 0 {} {}", cols, rows).unwrap();
+            }
+            2 => {
+                let s = if *rows >= 2 {
+                    let t = rng.range(1, *rows - 1);
+                    format!("\u{1b}[{};{}r", t, rng.range(t + 1, *rows))
+                } else {
+                    "\u{1b}[r".to_string()
+                };
+                writeln!(out, "S 0 {}", hex_encode(&s)).unwrap();
+            }
+            3 | 4 => {
+                // move (often as far as it goes), then save
+                let mv = match rng.below(3) {
+                    0 => format!("\u{1b}[{};{}H", rows, cols),
+                    1 => format!("\u{1b}[{};{}H", rng.range(1, *rows), rng.range(1, *cols)),
+                    _ => "\u{1b}[99C\u{1b}[99B".to_string(),
+                };
+                let s = format!("{}{}", mv, *rng.pick(&["\u{1b}7", "\u{1b}[s", "\u{1b}[?1048h", ""]));
+                writeln!(out, "S 0 {}", hex_encode(&s)).unwrap();
+            }
+            5 => {
+                // print up to the right edge: leaves a wrap pending
+                let s = format!("\u{1b}[{}G{}", cols, gen_char(rng));
+                writeln!(out, "S 0 {}", hex_encode(&s)).unwrap();
+            }
+            _ => {
+                let s = gen_soup_fragment(rng, *cols, *rows);
+                writeln!(out, "S 0 {}", hex_encode(&s)).unwrap();
+            }
+        }
+    }
+    writeln!(out, "S 0 {}", hex_encode(&format!("\u{1b}[?{}l", off))).unwrap();
+    if rng.chance(50) {
+        writeln!(out, "S 0 {}", hex_encode(*rng.pick(&["\u{1b}8", "\u{1b}[u", "\n", "\u{1b}[S", "x", "xy"]))).unwrap();
+    }
+}
+
+/// C04: printing at the right edge.  Reach the wrap-pending position (or the last column), tweak
+/// what steers printing (DECAWM, IRM, pen, charsets, margins - also with the cursor parked outside the
+/// region in origin mode), then print / repeat; several rounds
+fn case_c04_edge(rng: &mut Rng, w: &W, out: &mut impl Write) {
+    let (cols, rows) = (rng.range(1, 9), rng.range(1, 6));
+    writeln!(out, "N 0 {} {} {}", cols, rows, lim_tok(gen_limit(rng, w))).unwrap();
+    if rng.chance(50) {
+        writeln!(out, "S 0 {}", hex_encode(&gen_fill(rng, cols, rows))).unwrap();
+    }
+    if rng.chance(35) && rows >= 2 {
+        writeln!(out, "S 0 {}", hex_encode(&gen_park_outside(rng, cols, rows))).unwrap();
+    } else if rng.chance(40) && rows >= 2 {
+        let t = rng.range(1, rows - 1);
+        let b = rng.range(t + 1, rows);
+        writeln!(out, "S 0 {}", hex_encode(&format!("\u{1b}[{};{}r\u{1b}[{};1H", t, b, rng.range(1, rows)))).unwrap();
+    }
+    for _ in 0..rng.range(1, 5) {
+        // to the edge
+        let s = match rng.below(4) {
+            0 => format!("\u{1b}[{}G{}", cols, gen_char(rng)),
+            1 => "\u{1b}[999C".to_string(),
+            2 => format!("\u{1b}[999C{}", gen_char(rng)),
+            _ => (0..cols).map(|_| gen_char(rng)).collect(),
+        };
+        writeln!(out, "S 0 {}", hex_encode(&s)).unwrap();
+        // tweaks
+        for _ in 0..rng.below(4) {
+            let s = match rng.below(9) {
+                0 | 1 => format!("\u{1b}[?7{}", *rng.pick(&['h', 'l'])),
+                2 => format!("\u{1b}[4{}", *rng.pick(&['h', 'l'])),
+                3 | 4 => gen_sgr(rng),
+                5 => gen_charset(rng),
+                6 => format!("\u{1b}[?6{}", *rng.pick(&['h', 'l'])),
+                7 => rng.pick(&["\u{1b}7", "\u{1b}8", "\u{1b}[?25l", "\u{1b}[20h"]).to_string(),
+                _ => gen_margins(rng, rows),
+            };
+            writeln!(out, "S 0 {}", hex_encode(&s)).unwrap();
+        }
+        // print / repeat
+        for _ in 0..rng.range(1, 3) {
+            let s = match rng.below(5) {
+                0 | 1 => gen_char(rng).to_string(),
+                2 => format!("\u{1b}[{}b", *rng.pick(&["", "1", "2", "3", "9"])),
+                3 => format!("{}{}", gen_char(rng), gen_char(rng)),
+                _ => format!("{}\u{1b}[{}b", gen_char(rng), rng.range(1, cols + 1)),
+            };
+            writeln!(out, "S 0 {}", hex_encode(&s)).unwrap();
+        }
+    }
+}
+
+/// screens wider than 65535 columns: every `as u16` on a column count, and every parameter that is
+/// compared with one, shows here (counts around `cols mod 65536`, 65535, the width itself)
+fn case_huge_geometry(rng: &mut Rng, w: &W, out: &mut impl Write) {
+    let mut cols = *rng.pick(&[65536usize, 65537, 65540, 65600, 70000]);
+    let rows = rng.range(1, 2);
+    writeln!(out, "N 0 {} {} {}", cols, rows, lim_tok(gen_limit(rng, w))).unwrap();
+    let nops = rng.range(3, 8);
+    for _ in 0..nops {
+        let m = cols % 65536;
+        let num = |rng: &mut Rng| -> String {
+            match rng.below(8) {
+                0 => String::new(),
+                1 => (m + 1).to_string(),
+                2 => (m + 2).to_string(),
+                3 => m.max(1).to_string(),
+                4 => "65535".to_string(),
+                5 => rng.range(1, 9).to_string(),
+                6 => "65536".to_string(),
+                _ => (m / 2 + 1).to_string(),
+            }
+        };
+        let s = match rng.below(12) {
+            0 => format!("\u{1b}[{}G", num(rng)),
+            1 => "\u{1b}[65535G\u{1b}[65535C".to_string(),
+            2 => format!("\u{1b}[{}@", num(rng)),
+            3 => format!("\u{1b}[{}P", num(rng)),
+            4 => format!("\u{1b}[{}X", num(rng)),
+            5 => format!("{}\u{1b}[{}b", gen_char(rng), rng.range(1, 9)),
+            6 => format!("\u{1b}[{}{}", num(rng), *rng.pick(&['C', 'D', 'I', 'Z'])),
+            7 => format!("\u{1b}[{}K", *rng.pick(&["", "1", "2"])),
+            8 => gen_text(rng, 8),
+            9 => rng.pick(&["\u{1b}H", "\t", "\u{1b}[g", "\r", "\n", "\u{1b}7", "\u{1b}8"]).to_string(),
+            10 => {
+                cols = *rng.pick(&[65536usize, 65537, 65540, 66000, 10, 70000]);
+                writeln!(out, "R 0 {} {}", cols, rows).unwrap();
+                continue;
+            }
+            _ => gen_fragment(rng, w, 8, rows),
+        };
+        writeln!(out, "S 0 {}", hex_encode(&s)).unwrap();
+    }
+}
+
 /// one instance, ops drawn from the small state-machine alphabet (with resizes and queries)
 fn case_soup(rng: &mut Rng, w: &W, out: &mut impl Write) {
     let (mut cols, mut rows) = (rng.range(1, 8), rng.range(1, 6));
@@ -827,50 +1078,30 @@ fn case_soup(rng: &mut Rng, w: &W, out: &mut impl Write) {
         }
     }
     let nops = rng.range(6, 40);
-    let episode_at = if rng.chance(35) { rng.below(nops) } else { usize::MAX };
+    // alternate-screen episodes: none, one, or two (the second often after a shrink, starting with a
+    // restore: the saved context of the first episode must have been clamped meanwhile)
+    let (ep1, ep2) = match rng.below(100) {
+        0..=49 => (usize::MAX, usize::MAX),
+        50..=74 => (rng.below(nops), usize::MAX),
+        _ => {
+            let a = rng.below(nops);
+            (a, a + 1 + rng.below(6))
+        }
+    };
     for i in 0..nops {
-        if i == episode_at {
-            // an alternate-screen episode: switch, a few of {resize, margins, save, move, modes, text},
-            // switch back - the state carried across the two switches (margins, saved contexts,
-            // the other buffer's size) is what single random switches rarely exercise
-            let on = *rng.pick(&[47usize, 1047, 1049]);
-            let off = *rng.pick(&[47usize, 1047, 1049]);
-            writeln!(out, "S 0 {}", hex_encode(&format!("\u{1b}[?{}h", on))).unwrap();
-            for _ in 0..rng.range(1, 4) {
-                match rng.below(6) {
-                    0 | 1 => {
-                        match rng.below(3) {
-                            0 => cols = rng.range(1, 8),
-                            1 => rows = rng.range(1, 6),
-                            _ => {
-                                cols = rng.range(1, 8);
-                                rows = rng.range(1, 6);
-                            }
-                        }
-                        writeln!(out, "R 0 {} {}", cols, rows).unwrap();
-                    }
-                    2 => {
-                        let s = if rows >= 2 {
-                            let t = rng.range(1, rows - 1);
-                            format!("\u{1b}[{};{}r", t, rng.range(t + 1, rows))
-                        } else {
-                            "\u{1b}[r".to_string()
-                        };
-                        writeln!(out, "S 0 {}", hex_encode(&s)).unwrap();
-                    }
-                    3 => {
-                        let s = format!("\u{1b}[{};{}H{}", rng.range(1, rows), rng.range(1, cols), *rng.pick(&["\u{1b}7", "\u{1b}[s", ""]));
-                        writeln!(out, "S 0 {}", hex_encode(&s)).unwrap();
-                    }
+        if i == ep1 || i == ep2 {
+            alt_episode(rng, &mut cols, &mut rows, i == ep2, out);
+            if i == ep1 && ep2 != usize::MAX && rng.chance(60) {
+                // shrink (or otherwise resize) while the primary screen shows
+                match rng.below(3) {
+                    0 => cols = rng.range(1, cols),
+                    1 => rows = rng.range(1, rows),
                     _ => {
-                        let s = gen_soup_fragment(rng, cols, rows);
-                        writeln!(out, "S 0 {}", hex_encode(&s)).unwrap();
+                        cols = rng.range(1, 8);
+                        rows = rng.range(1, 6);
                     }
                 }
-            }
-            writeln!(out, "S 0 {}", hex_encode(&format!("\u{1b}[?{}l", off))).unwrap();
-            if rng.chance(50) {
-                writeln!(out, "S 0 {}", hex_encode(*rng.pick(&["\u{1b}8", "\u{1b}[u", "\n", "\u{1b}[S", "x"]))).unwrap();
+                writeln!(out, "R 0 {} {}", cols, rows).unwrap();
             }
         }
         if rng.chance(w.resize_pct / 2) {
@@ -1183,15 +1414,36 @@ fn case_c11(rng: &mut Rng, w: &W, out: &mut impl Write) {
 
 /// C12: same start, one string fed whole / split / per char
 fn case_c12(rng: &mut Rng, w: &W, out: &mut impl Write) {
-    let (mut cols, mut rows) = gen_size(rng, w);
+    // 40 %: small screen, history and chunked string drawn from the dense state-machine alphabet
+    // (alternate screen, margins, scrolls, saves) - cuts between e.g. entering the alternate screen
+    // and a region scroll are where the end-of-call work (changes, gc) can make a difference
+    let soup = rng.chance(40);
+    let (mut cols, mut rows) = if soup { (rng.range(1, 7), rng.range(1, 5)) } else { gen_size(rng, w) };
     let limit = gen_limit(rng, w);
     for k in 0..4 {
         writeln!(out, "N {} {} {} {}", k, cols, rows, lim_tok(limit)).unwrap();
     }
-    let nops = rng.range(0, 6);
-    history(rng, w, &[0, 1, 2, 3], &mut cols, &mut rows, nops, out);
-    let n = rng.range(1, 10);
-    let s: String = (0..n).map(|_| gen_fragment(rng, w, cols, rows)).collect();
+    let s: String = if soup {
+        let mut pre = String::new();
+        if rng.chance(60) {
+            pre.push_str(&gen_fill(rng, cols, rows));
+        }
+        for _ in 0..rng.range(0, 5) {
+            pre.push_str(&gen_soup_fragment(rng, cols, rows));
+        }
+        if !pre.is_empty() {
+            for k in 0..4 {
+                writeln!(out, "S {} {}", k, hex_encode(&pre)).unwrap();
+            }
+        }
+        let n = rng.range(2, 12);
+        (0..n).map(|_| gen_soup_fragment(rng, cols, rows)).collect()
+    } else {
+        let nops = rng.range(0, 6);
+        history(rng, w, &[0, 1, 2, 3], &mut cols, &mut rows, nops, out);
+        let n = rng.range(1, 10);
+        (0..n).map(|_| gen_fragment(rng, w, cols, rows)).collect()
+    };
     let chars: Vec<char> = s.chars().collect();
     writeln!(out, "S 0 {}", hex_encode(&s)).unwrap();
     // random split
@@ -1268,6 +1520,32 @@ fn case_c16(rng: &mut Rng, w: &W, out: &mut impl Write) {
     w0.ris = 0;
     let nops = rng.range(1, 10);
     history(rng, &w0, &[0], &mut cols, &mut rows, nops, out);
+    let earlier = rng.chance(30);
+    if earlier {
+        // an earlier excursion that leaves a saved context behind on the alternate screen (often far
+        // from home), then usually a shrink while the primary screen shows: the excursion under
+        // test starts with a stale context parked on the other screen
+        let on = *rng.pick(&[47usize, 1047, 1049]);
+        let off = *rng.pick(&[47usize, 1047, 1049]);
+        let mv = match rng.below(3) {
+            0 => format!("\u{1b}[{};{}H", rows, cols),
+            1 => format!("\u{1b}[{};{}H", rng.range(1, rows), rng.range(1, cols)),
+            _ => "\u{1b}[999C\u{1b}[999B".to_string(),
+        };
+        let sv = *rng.pick(&["\u{1b}7", "\u{1b}[s", "\u{1b}[?1048h"]);
+        writeln!(out, "S 0 {}", hex_encode(&format!("\u{1b}[?{}h{}{}{}\u{1b}[?{}l", on, mv, gen_sgr(rng), sv, off))).unwrap();
+        if rng.chance(70) {
+            match rng.below(3) {
+                0 => cols = rng.range(1, cols),
+                1 => rows = rng.range(1, rows),
+                _ => {
+                    cols = rng.range(1, cols);
+                    rows = rng.range(1, rows);
+                }
+            }
+            writeln!(out, "R 0 {} {}", cols, rows).unwrap();
+        }
+    }
     let with_resize = rng.chance(35);
     let enter = *rng.pick(&[47usize, 1047, 1049]);
     writeln!(out, "X C16MARK 0").unwrap();
@@ -1298,6 +1576,8 @@ fn case_c16(rng: &mut Rng, w: &W, out: &mut impl Write) {
             let s = if rng.chance(8) {
                 // entering again (any of the three numbers) must be a no-op for the primary
                 format!("\u{1b}[?{}h", *rng.pick(&[47usize, 1047, 1049]))
+            } else if earlier && rng.chance(25) {
+                rng.pick(&["\u{1b}8", "\u{1b}[u", "\u{1b}[?1048l"]).to_string()
             } else {
                 gen_feed(rng, &wa, cols, rows)
             };
@@ -1328,6 +1608,10 @@ fn case_c19(rng: &mut Rng, w: &W, out: &mut impl Write) {
     w0.strings = 5;
     let nops = rng.range(1, 16);
     history(rng, &w0, &[0], &mut cols, &mut rows, nops, out);
+    if rng.chance(35) {
+        // RIS arriving in the middle of a sequence whose registers are at their limits
+        writeln!(out, "S 0 {}", hex_encode(&gen_dangling(rng))).unwrap();
+    }
     writeln!(out, "S 0 {}", hex_encode("\u{1b}c")).unwrap();
     writeln!(out, "N 1 {} {} {}", cols, rows, lim_tok(limit)).unwrap();
     writeln!(out, "X C19 0 1").unwrap();
@@ -1368,6 +1652,9 @@ pub fn generate(profile: &str, seed: u64, ncases: usize, tier: &str, out: &mut i
         let mut rng = Rng::new(seed.wrapping_mul(1_000_003).wrapping_add(i as u64));
         writeln!(out, "CASE {} {} {}", i, profile, seed).unwrap();
         match profile {
+            "C01" | "C02" | "C04" | "C05" | "C06" | "C07" | "C08" | "C15" | "C17" | "C18" if i % 100 == 57 => {
+                case_huge_geometry(&mut rng, &w, out)
+            }
             "C03" => {
                 if i % 3 == 0 {
                     case_generic(&mut rng, &w, out)
@@ -1389,6 +1676,7 @@ pub fn generate(profile: &str, seed: u64, ncases: usize, tier: &str, out: &mut i
                     case_generic(&mut rng, &w, out)
                 }
             }
+            "C04" if i % 4 == 1 => case_c04_edge(&mut rng, &w, out),
             "C04" | "C06" | "C07" | "C08" | "C18" if i % 4 == 3 => case_soup(&mut rng, &w, out),
             _ => case_generic(&mut rng, &w, out),
         }
